@@ -6,6 +6,7 @@ CONSTANTS NP = 1
           MCLimits = {1}
           MCMsgLen = 1
           MCNCfg = 2
+          MCKindSel = "three"
           MCIgnored = {}
           MCBig = {2}
           Cfgs <- MCCfgs
